@@ -117,14 +117,18 @@ def union_model(children: list):
     return ['union'] + flat
 
 
-def obj_model(x, reg: Registry, depth: int = 0):
-    """Real object -> model object (cls, atom, items, vals, attrs)."""
+def obj_model(x, reg: Registry, depth: int = 0, sdepth: int = 7):
+    """Real object -> model object (cls, atom, items, vals, attrs). A str is a sequence of
+    1-character strs, each again such a sequence: unfolded `sdepth` levels (deeper than any
+    generated hint nests)."""
     c = reg.id(type(x))
     items, vals, attrs = [], [], []
     if depth < 12:
-        if isinstance(x, (str, bytes)):
-            if depth < 3 and len(x) > 0:
-                items = [obj_model(ch if isinstance(x, str) else ch, reg, depth + 10) for ch in x][:8]
+        if isinstance(x, str):
+            if sdepth > 0:
+                items = [obj_model(ch, reg, depth, sdepth - 1) for ch in x]
+        elif isinstance(x, bytes):
+            items = [obj_model(ch, reg, depth + 1) for ch in x]
         elif isinstance(x, A.Mapping):
             ks = list(x.keys())
             items = [obj_model(k, reg, depth + 1) for k in ks]
